@@ -12,6 +12,7 @@ import (
 	"net"
 	"os"
 	"path/filepath"
+	"strings"
 	"sync"
 	"testing"
 	"time"
@@ -53,6 +54,10 @@ func c13Setup(t *testing.T) {
 		p := filepath.Join(dir, fmt.Sprintf("c13_subnets_%d.toml", i))
 		body := fmt.Sprintf("[Networks]\n  [Networks.1]\n    Generation = 1\n    [[Networks.1.WeightedSubnets]]\n      Weight = 1\n      RandomizeDstPort = true\n      Subnets = [%q, %q]\n"+
 			"  [Networks.2]\n    Generation = 2\n    [[Networks.2.WeightedSubnets]]\n      Weight = 1\n      RandomizeDstPort = true\n      Subnets = [%q]\n", sp[0], sp[1], sp[0])
+		if i == 0 {
+			// generation 3 exists only in the first file: after a reload to the second file it must be gone
+			body += fmt.Sprintf("  [Networks.3]\n    Generation = 3\n    [[Networks.3.WeightedSubnets]]\n      Weight = 1\n      RandomizeDstPort = true\n      Subnets = [%q, %q]\n", sp[0], sp[1])
+		}
 		if err := os.WriteFile(p, []byte(body), 0o644); err != nil {
 			t.Fatal(err)
 		}
@@ -193,7 +198,7 @@ func c13Scenario(r *sim.Run) {
 		tt := pb.TransportType_Min
 		c2s := &pb.ClientToStation{
 			Transport:           &tt,
-			DecoyListGeneration: proto.Uint32(map[int]uint32{3: 2, 4: 9, 5: 9}[kind] + map[bool]uint32{true: 0, false: 1}[kind >= 3]),
+			DecoyListGeneration: proto.Uint32(map[int]uint32{3: 2, 4: 9, 5: 9, 6: 3}[kind] + map[bool]uint32{true: 0, false: 1}[kind >= 3]),
 			CovertAddress:       proto.String("203.0.113.9:443"),
 			V4Support:           proto.Bool(kind != 1 && kind != 4),
 			V6Support:           proto.Bool(kind != 0 && kind != 5),
@@ -201,16 +206,27 @@ func c13Scenario(r *sim.Run) {
 		}
 		return &pb.C2SWrapper{SharedSecret: secret, RegistrationPayload: c2s}
 	}
+	// a panic in a request or reload goroutine takes the registrar down
+	spawn := func(name string, f func()) {
+		s.Spawn(name, func() {
+			defer func() {
+				if pv := recover(); pv != nil {
+					r.Fail("C13/panic/"+strings.TrimRight(name, "0123456789"), "%s panicked: %v", name, pv)
+				}
+			}()
+			f()
+		})
+	}
 	for i, kind := range reqs {
 		i, kind := i, kind
-		s.Spawn(fmt.Sprintf("req%d", i), func() {
+		spawn(fmt.Sprintf("req%d", i), func() {
 			resp, err := p.RegisterBidirectional(mkReq(i, kind), pb.RegistrationSource_API, net.ParseIP("198.18.0.7").To4())
 			outs[i] = out{resp, err, true}
 		})
 	}
 	for j := 0; j < reloads; j++ {
 		j := j
-		s.Spawn(fmt.Sprintf("reload%d", j), func() {
+		spawn(fmt.Sprintf("reload%d", j), func() {
 			switch rkinds[j] {
 			case 0:
 				os.Setenv("PHANTOM_SUBNET_LOCATION", c13Files[1])
@@ -320,7 +336,7 @@ func c13Scenario(r *sim.Run) {
 	if goodReloads > 0 {
 		want = 1
 	}
-	s.Spawn("after.req", func() {
+	spawn("after.req", func() {
 		resp, err := p.RegisterBidirectional(mkReq(99, 2), pb.RegistrationSource_API, net.ParseIP("198.18.0.7").To4())
 		if err != nil || resp == nil {
 			r.Fail("C13/request-failed", "request after the reloads: %v", err)
@@ -339,6 +355,15 @@ func c13Scenario(r *sim.Run) {
 		os.Setenv("PHANTOM_SUBNET_LOCATION", c13Files[want])
 		if err := p.ReloadSubnets(); err != nil {
 			r.Fail("C13/reload-failed", "reload after the scenario: %v", err)
+			return
+		}
+		// file `want` is in force now, whatever happened before. Generation 3 exists only in file 0:
+		// the new set must be in force IN FULL, not merged into what was there
+		resp3, err3 := p.RegisterBidirectional(mkReq(98, 6), pb.RegistrationSource_API, net.ParseIP("198.18.0.7").To4())
+		if want == 1 && err3 == nil {
+			r.Fail("C13/old-generation-survives-reload", "after a completed reload to a subnet file without generation 3, a generation-3 request is still answered (v4 %v): the old set was not replaced in full", uint32ToIPv4(resp3.Ipv4Addr))
+		} else if want == 0 && err3 != nil {
+			r.Fail("C13/request-failed", "generation-3 request with the first subnet file in force: %v", err3)
 		}
 	})
 	switch st2 := sim.Drive(r, s, sim.DriveOpt{Horizon: 2 * time.Hour, MaxSteps: 2000}); st2 {
